@@ -190,6 +190,15 @@ def run(tier):
     seen = set()
     mitems = [x for x in mitems if not (x[0] in seen or seen.add(x[0]))]
     run_population(ctx, mitems, "accepted token mutants", rnd, 0)
+    # units of several programs with every token at one and the same (line, column), the file name alternating:
+    # nothing the generator does may hang on source positions
+    from .. import layout
+    uitems = []
+    pool = [e["toks"] for e in progs if not any("\n" in t for t in e["toks"])]
+    for _ in range(150 if tier == "quick" else 2000):
+        toks = [t for p in (rnd.choice(pool) for _ in range(rnd.randint(2, 12))) for t in p]
+        uitems.append((layout.render(toks, "sameline", rnd), "sameline-unit"))
+    run_population(ctx, uitems, "units with all tokens at one position", rnd, 0)
     citems = [(txt, "corpus:" + name) for name, txt in corpus.preprocessed(None)]
     run_population(ctx, citems, "corpus", rnd, len(citems))
     from .c12 import GEN_PROGRAMS
